@@ -9,13 +9,14 @@ from kverif.anf import sym
 
 def main():
     q = sys.argv[1]
-    ctx = Context("C20", "quick", 0, None)
+    root = next((a.split("=",1)[1] for a in sys.argv if a.startswith("--root=")), None)
+    ctx = Context("C20", "quick", 0, root)
     rc = RuleCtx(ctx)
     fi = rc.func(q)
     ev = rc.new_eval()
     if "--summ" in sys.argv:
         ev.summarise_loops = True
-    kinds = dict(a.split("=") for a in sys.argv[2:] if "=" in a)
+    kinds = dict(a.split("=") for a in sys.argv[2:] if "=" in a and not a.startswith("--"))
     args = {}
     for a in fi.node.args.args:
         k = kinds.get(a.arg, "s")
